@@ -216,7 +216,14 @@ pub fn step<const M: usize>(s: &mut Sim<M>, rep: &mut Report, p: &Profile) -> (u
                     2 => osz / 2,
                     3 => (osz + 1) / 2,
                     4 => osz.saturating_sub(s.rng.below(17)),
-                    5 => osz + s.rng.below(17),
+                    5 => {
+                        // small growth; every other time exactly up to the size padded to the block's alignment
+                        if s.rng.chance(1, 2) && oal > 1 && osz % oal != 0 {
+                            (osz / oal + 1) * oal
+                        } else {
+                            osz + s.rng.below(17)
+                        }
+                    }
                     6 => osz * 2,
                     7 => osz + cap.saturating_sub(if s.rng.chance(1, 3) { 0 } else { s.rng.below(40) }),
                     8 => osz + cap + s.rng.below(40),
